@@ -1,13 +1,119 @@
 import Driver.Codec
+import Driver.Regex
 import JSV.Model.Equal
+import JSV.Model.Hash
+import JSV.Model.Unmarshal
+import JSV.Model.Resolve
+import JSV.Model.Validate
 
 open JSV Driver
+
+def getArg (args : Lean.Json) (k : String) : Lean.Json := (args.getObjVal? k).toOption.getD .null
+
+def str (s : String) : Lean.Json := .str s
+
+def outcome (s : String) (extra : List (String × Lean.Json) := []) : Lean.Json :=
+  Lean.Json.mkObj (("outcome", .str s) :: extra)
+
+/-- FNV-1a over the bytes hashValue writes: a stand-in for maphash under one seed -/
+def fnv (bs : List UInt8) : UInt64 :=
+  bs.foldl (fun h b => (h ^^^ b.toUInt64) * 1099511628211) 14695981039346656037
+
+def hashVal (v : GoVal) : UInt64 :=
+  match Go.hashEnc v with
+  | .ok bs => fnv bs
+  | _ => 0
+
+structure Universe where
+  st : Store
+  root : NodeId
+  loader : Option (List (String × Go.LoaderResult))
+  folded : Bool
+
+/-- unmarshal the root document and every loader document into one store -/
+def buildUniverse (args : Lean.Json) : Except String (Res Universe) := do
+  let rootDoc ← decodeJson (getArg args "schema")
+  let docsJ := match getArg args "docs" with | .arr xs => xs.toList | _ => []
+  let hasLoader := match getArg args "loader" with | .bool b => b | _ => !docsJ.isEmpty
+  match Go.unmarshal rootDoc #[] with
+  | .ok (root, st) =>
+    let mut st := st
+    let mut tbl : List (String × Go.LoaderResult) := []
+    let mut folded := Go.hasFoldedKey rootDoc
+    let mut bad : Option (Res Universe) := none
+    for d in docsJ do
+      match d with
+      | .arr #[.str uri, body] =>
+        if (body.getObjVal? "fail").isOk then
+          tbl := tbl ++ [(uri, .fail)]
+        else if (body.getObjVal? "nil").isOk then
+          tbl := tbl ++ [(uri, .nilDoc)]
+        else
+          let dj ← decodeJson body
+          folded := folded || Go.hasFoldedKey dj
+          match Go.unmarshal dj st with
+          | .ok (r, st') =>
+            st := st'
+            tbl := tbl ++ [(uri, .doc r)]
+          | _ =>
+            -- a document the Loader cannot unmarshal: the Loader returns an error
+            tbl := tbl ++ [(uri, .fail)]
+      | _ => throw "bad docs entry"
+    match bad with
+    | some b => return b
+    | none => return .ok { st := st, root := root, loader := if hasLoader then some tbl else none, folded := folded }
+  | .err => return .err
+  | .panic => return .panic
+  | .fuel => return .fuel
+
+def infoPath (infos : List (NodeId × Go.Info)) (id : Option NodeId) : String :=
+  match id with
+  | none => ""
+  | some i => match Go.lookupNat i infos with
+    | some inf => inf.path
+    | none => "?"
+
+def infoBase (infos : List (NodeId × Go.Info)) (id : Option NodeId) : String :=
+  match id with
+  | none => ""
+  | some i => match Go.lookupNat i infos with
+    | some inf => match inf.base with
+      | some b => match Go.lookupNat b infos with
+        | some bi => (bi.uri.map Uri.toString).getD "?"
+        | none => "?"
+      | none => "?"
+    | none => "?"
+
+def targetsJson (st : Store) (rs : Go.Resolved) : Lean.Json :=
+  .arr <| (rs.infos.filterMap fun (id, inf) =>
+    match st.get? id with
+    | some n =>
+      if n.ref == "" && n.dynamicRef == "" then none else
+      some <| Lean.Json.mkObj [
+        ("Path", str inf.path), ("Base", str (infoBase rs.infos (some id))),
+        ("RefPath", str (infoPath rs.infos inf.resolvedRef)), ("RefBase", str (infoBase rs.infos inf.resolvedRef)),
+        ("DynRefPath", str (infoPath rs.infos inf.resolvedDynamicRef)),
+        ("DynRefBase", str (infoBase rs.infos inf.resolvedDynamicRef)),
+        ("DynamicAnchor", str inf.dynamicRefAnchor)]
+    | none => none).toArray
+
+def resolveFuel : Nat := 64
+def validateFuelN : Nat := 600
+
+def doResolve (u : Universe) (base : String) : Res Go.Resolved :=
+  let env : Go.Env := { st := u.st, reOk := Regex.compiles, loader := u.loader }
+  Go.resolve env resolveFuel u.root base
+
+def mkVEnv (u : Universe) (rs : Go.Resolved) : Go.VEnv :=
+  { st := u.st, draft := rs.draft, infos := rs.infos, reMatch := Regex.matchString, hash := hashVal }
+
+def hList (u : Universe) : Lean.Json := .arr (if u.folded then #[.str "D4"] else #[])
 
 def handle (op : String) (args : Lean.Json) : Except String Lean.Json := do
   match op with
   | "equal" =>
-    let x ← decodeGoVal ((args.getObjVal? "x").toOption.getD .null)
-    let y ← decodeGoVal ((args.getObjVal? "y").toOption.getD .null)
+    let x ← decodeGoVal (getArg args "x")
+    let y ← decodeGoVal (getArg args "y")
     let r := Go.equal x y
     let spec : Lean.Json := match GoVal.denote x, GoVal.denote y with
       | some a, some b => .bool (Json.eqv a b)
@@ -15,6 +121,58 @@ def handle (op : String) (args : Lean.Json) : Except String Lean.Json := do
     pure (Lean.Json.mkObj [
       ("model", resToJson (fun b => Lean.Json.mkObj [("outcome", "ok"), ("equal", .bool b)]) r),
       ("spec", spec)])
+  | "validate" =>
+    let base := ((getArg args "base").getStr?).toOption.getD ""
+    match ← buildUniverse args with
+    | .ok u =>
+      -- instances: "insts" = list of tagged JSON values, or "ginsts" = list of value descriptors
+      let insts : List GoVal ←
+        match getArg args "ginsts" with
+        | .arr gs => gs.toList.mapM decodeGoVal
+        | _ => match getArg args "insts" with
+          | .arr js => js.toList.mapM fun j => do
+              let v ← decodeJson j
+              pure (GoVal.ofJson v)
+          | _ => pure []
+      match doResolve u base with
+      | .ok rs =>
+        let env := mkVEnv u rs
+        let verdicts := insts.map fun g =>
+          match Go.validate env Generated.supportedVersions validateFuelN rs.root g with
+          | .ok _ => "valid"
+          | .err => "invalid"
+          | .panic => "panic"
+          | .fuel => "fuel"
+        pure (Lean.Json.mkObj [
+          ("model", outcome "resolved" [
+            ("verdicts", .arr (verdicts.map str).toArray),
+            ("log", .arr (rs.log.map str).toArray),
+            ("draft", str (if rs.draft == .d7 then "draft7" else "draft2020")),
+            ("targets", targetsJson u.st rs)]),
+          ("H", hList u)])
+      | .err => pure (Lean.Json.mkObj [("model", outcome "resolve-error"), ("H", hList u)])
+      | .panic => pure (Lean.Json.mkObj [("model", outcome "panic"), ("H", hList u)])
+      | .fuel => pure (Lean.Json.mkObj [("model", outcome "fuel"), ("H", hList u)])
+    | .err => pure (Lean.Json.mkObj [("model", outcome "unmarshal-error")])
+    | .panic => pure (Lean.Json.mkObj [("model", outcome "panic")])
+    | .fuel => pure (Lean.Json.mkObj [("model", outcome "fuel")])
+  | "uri" =>
+    let base := ((getArg args "base").getStr?).toOption.getD ""
+    let ref := ((getArg args "ref").getStr?).toOption.getD ""
+    match Uri.parse base, Uri.parse ref with
+    | .ok b, .ok r =>
+      let u := Uri.resolveReference b r
+      pure (Lean.Json.mkObj [("model", outcome "ok" [
+        ("resolved", str (Uri.toString u)), ("fragment", str u.fragment),
+        ("fragless", str (Uri.toString (Uri.dropFragment u))), ("abs", .bool (Uri.isAbs u))])])
+    | .ok _, _ => pure (Lean.Json.mkObj [("model", outcome "ref-error")])
+    | _, _ => pure (Lean.Json.mkObj [("model", outcome "base-error")])
+  | "regex" =>
+    let pat := ((getArg args "pattern").getStr?).toOption.getD ""
+    let subj := ((getArg args "subject").getStr?).toOption.getD ""
+    if Regex.compiles pat then
+      pure (Lean.Json.mkObj [("model", outcome "ok" [("match", .bool (Regex.matchString pat subj))])])
+    else pure (Lean.Json.mkObj [("model", outcome "compile-error")])
   | _ => throw s!"unknown op {op}"
 
 partial def loop (h : IO.FS.Stream) (out : IO.FS.Stream) : IO Unit := do
